@@ -211,6 +211,11 @@ func fromCtyNumberFloat(bf *big.Float, target reflect.Value, path cty.Path) erro
 				return path.NewErrorf("value must be between %f and %f inclusive", -math.MaxFloat64, math.MaxFloat64)
 			}
 		}
+		if target.OverflowFloat(fv) {
+			// The number fits a float64 but not the (float32) target, so
+			// storing it would silently turn it into an infinity.
+			return path.NewErrorf("value must be between %f and %f inclusive", -math.MaxFloat32, math.MaxFloat32)
+		}
 		target.SetFloat(fv)
 		return nil
 	default:
